@@ -123,6 +123,11 @@ def posOk (L : Lattice) : List (Option Param) → List Arg → Bool
       let v := if a.isNoValue then p.default.getD .noValue else a
       check L p.ty v && posOk L r as
 
+def checkOpt (L : Lattice) (o : Option Param) (a : Arg) : Bool :=
+  match o with
+  | some p => check L p.ty a
+  | none => false
+
 structure Mapping where
   pos : List Param
   kwd : List (Name × Param)        -- in the order of the call's keyword arguments
@@ -143,9 +148,7 @@ def mapArgs (L : Lattice) (ps : List Param) (args : List Arg) (kwargs : KwArgs) 
       | none => none
       | some kwd =>
           if !posOk L st.pos args then none
-          else if !(st.rest.all fun kv => match alookup kv.1 kwd with
-                      | some p => check L p.ty kv.2
-                      | none => false) then none
+          else if !(st.rest.all fun kv => checkOpt L (alookup kv.1 kwd) kv.2) then none
           else some { pos := st.pos.filterMap id,
                       kwd := kwargs.filterMap fun kv => (alookup kv.1 kwd).map fun p => (kv.1, p) }
 
@@ -324,6 +327,8 @@ structure Cand where
   mapping : Mapping
 deriving Repr, DecidableEq, Inhabited
 
+def Cand.sig (c : Cand) : LazySig := c.mapping.lazySig
+
 /-- inner loop of the first pass: `for c in level`; the state is `lazy_params` -/
 def mapLevel (L : Lattice) (args : List Arg) (kw : KwArgs) :
     Option LazySig → List FDef → Except Err (Option LazySig × List Cand)
@@ -430,11 +435,15 @@ def selectLevel (L : Lattice) (args : List Arg) (kw : KwArgs) :
         | some [w] => .ok (w.cand.fd.id, w.bound)
         | some _ => .error .ambiguous
 
+/-- `if receiver is not utils.NO_VALUE: args = (receiver,) + args` -/
+def callArgs (c : Call) : List Arg :=
+  match c.receiver with
+  | some r => .value r :: c.args
+  | none => c.args
+
 /-- `choose_overload(name, candidates, engine, receiver, context, args, kwargs)` -/
 def chooseOverload (L : Lattice) (cands : List (List FDef)) (c : Call) : Outcome :=
-  let args0 := match c.receiver with
-    | some r => .value r :: c.args
-    | none => c.args
+  let args0 := callArgs c
   let flags := cands.flatten.map (·.noKwargs)
   if flags.any id && flags.any (!·) then ⟨[], .error .ambiguous⟩
   else match translateArgs (flags.headD false) args0 c.kwargs with
